@@ -20,8 +20,15 @@ State is split by TYPE: `Led` (the requests breaker, the two request_active gaug
 only by the six counter statements, by `place` (the stream is created on the connection) and by a close; `Books` (slots,
 clients, connection gauges, mutex) by everything else.
 
-Assumptions: the stream is registered with the pool's client in the statement that creates it (`place` + `listen` are one
-step: 47 must follow 32); each stream ends once (`BaseStream`, kind `once`); `CheckAndInit` with its connecting goroutine is
+`place` (the stream is created on the connection) and `listen` (the pool starts to listen to it) are SEPARATE statements
+(mux7).  Where the codec's NewStream enters the stream into the connection's stream table (`placeVisible`, regenerated:
+xprotocol yes, HTTP/2 no) a connection closed between the two resets the stream UNHEARD: it is dropped from `deaf` and
+nothing runs for it; the later `listen` finds it dead (`Out.lost`) — the connection is closed for good, so the
+closed-connection test that follows the listener (`undoChk`, code 48) WILL fire: its give-back (the destroy program, once)
+replaces it in the rest of the task.  `undoChk` on a stream that was heard and is still in flight (created on a
+connection that was already closed) resets it: OnResetStream + OnDestroyStream, then ConnectionFailure.
+
+Assumptions: each stream ends once (`BaseStream`, kind `once`); `CheckAndInit` with its connecting goroutine is
 one atomic label (`connect`: the goroutine's body runs under the pool's mutex).
 -/
 namespace MosnVerif.Model.PoolMxWin
@@ -37,6 +44,7 @@ inductive Stmt
   | loadSlot | slotIdx | chkNil | chkBreaker | place | chkState
   | delIfGoAway | clearClient | dialIfNil | markActive | delIfCurrent
   | lock | unlock | tstNotGoAway | delSlotIfCurrent | listen | setGoawayWord | setStateGoAway
+  | undoChk
   | bad
   deriving DecidableEq, Repr
 
@@ -46,7 +54,7 @@ def Stmt.ofCode : Nat → Stmt
   | 6 => .closeIfDrained | 7 => .closeIfIdle | 8 => .closeConn
   | 28 => .loadSlot | 29 => .slotIdx | 30 => .chkNil | 31 => .chkBreaker | 32 => .place | 33 => .chkState
   | 35 => .delIfGoAway | 36 => .clearClient | 37 => .dialIfNil | 38 => .markActive | 39 => .delIfCurrent
-  | 40 => .lock | 41 => .unlock | 45 => .tstNotGoAway | 46 => .delSlotIfCurrent | 47 => .listen
+  | 40 => .lock | 41 => .unlock | 45 => .tstNotGoAway | 46 => .delSlotIfCurrent | 47 => .listen | 48 => .undoChk
   | 50 => .setGoawayWord | 51 => .setStateGoAway
   | _ => .bad
 
@@ -54,7 +62,8 @@ def Stmt.ofCode : Nat → Stmt
 def dH : Stmt → Int | .decHost => -1 | .incHost => 1 | _ => 0
 def dC : Stmt → Int | .decCluster => -1 | .incCluster => 1 | _ => 0
 def dR : Stmt → Int | .decRes => -1 | .incRes => 1 | _ => 0
-def dP : Stmt → Int | .place => 1 | _ => 0
+/-- the statement after which the request counts as in flight for the pool: the pool listens to the stream -/
+def dP : Stmt → Int | .listen => 1 | _ => 0
 
 def dsum (f : Stmt → Int) (l : List Stmt) : Int := (l.map f).sum
 
@@ -68,6 +77,7 @@ structure Progs where
   delMoves  : List Nat    -- http2 deleteActiveClient
   dialMoves : List Nat
   hearsFirst : Bool
+  placeVisible : Bool := true   -- the codec's NewStream enters the stream into the connection's stream table
   deriving Repr
 
 def splitPre (p : List Stmt) : List Stmt := p.takeWhile (· ≠ .chkBreaker) ++ [.chkBreaker]
@@ -76,10 +86,12 @@ def splitPost (p : List Stmt) : List Stmt := (p.dropWhile (· ≠ .chkBreaker)).
 def progsOf : Kind → Progs
   | .mux => { nsPre := splitPre (muxNewStreamProg.map .ofCode), nsPost := splitPost (muxNewStreamProg.map .ofCode),
               destroy := muxDestroyProg.map .ofCode, reset := muxResetProg.map .ofCode, close := muxCloseProg.map .ofCode,
-              goAway := muxGoAwayProg.map .ofCode, delMoves := [], dialMoves := muxDialMoves, hearsFirst := muxPoolHearsFirst }
+              goAway := muxGoAwayProg.map .ofCode, delMoves := [], dialMoves := muxDialMoves, hearsFirst := muxPoolHearsFirst,
+              placeVisible := muxPlaceVisible }
   | .h2 => { nsPre := splitPre (h2NewStreamProg.map .ofCode), nsPost := splitPost (h2NewStreamProg.map .ofCode),
              destroy := h2DestroyProg.map .ofCode, reset := h2ResetProg.map .ofCode, close := h2CloseProg.map .ofCode,
-             goAway := h2GoAwayProg.map .ofCode, delMoves := h2DeleteMoves, dialMoves := h2DialMoves, hearsFirst := h2PoolHearsFirst }
+             goAway := h2GoAwayProg.map .ofCode, delMoves := h2DeleteMoves, dialMoves := h2DialMoves, hearsFirst := h2PoolHearsFirst,
+             placeVisible := h2PlaceVisible }
 
 /-- the request ledger -/
 structure Led where
@@ -88,7 +100,8 @@ structure Led where
   rqHost    : Int := 0       -- host upstream_request_active
   rqCluster : Int := 0       -- cluster upstream_request_active
   ext       : Nat := 0       -- ghost: slots held by other pools of the cluster
-  streams   : List Nat := []  -- truth: the connection of every request in flight (created, not yet ending)
+  streams   : List Nat := []  -- truth: the connection of every request in flight (the pool listens, not yet ending)
+  deaf      : List Nat := []  -- truth: the connection of every stream created in a stream table the pool does not listen to yet
   deriving Repr
 
 structure Client where
@@ -121,6 +134,8 @@ structure Task where
   slot : Nat := 0
   dialOk : Bool := true
   pre  : Bool := false        -- a NewStream that has not passed the breaker test
+  gaAtTest : Bool := false    -- ghost: OnGoAway had written the client's state word when this NewStream passed the state test
+  openAtEnd : Bool := true    -- ghost: the connection was open when this NewStream ran its last test
   rest : List Stmt
 
 structure State where
@@ -157,7 +172,7 @@ def Books.newClient (b : Books) (slot : Nat) (dialMoves : List Nat) : Books :=
 
 /-- what a statement asks of the scheduler -/
 inductive Out
-  | cont | blocked | refuse | pass | close (c : Nat)
+  | cont | blocked | refuse | pass | close (c : Nat) | lost | undo (c : Nat)
   deriving DecidableEq, Repr
 
 def slotOf (b : Books) (k : Nat) : Nat := if b.nSlots > 1 then k else 0
@@ -167,11 +182,11 @@ def bookStmt (pg : Progs) (led : Led) (b : Books) (t : Task) : Stmt → Books ×
   | .cn code => (b.cnMove code, t.c, .cont)
   | .closeIfDrained =>
     match t.c with
-    | some c => (b, t.c, if (b.client c).goaway && led.streams.count c == 0 then .close c else .cont)
+    | some c => (b, t.c, if (b.client c).goaway && led.streams.count c + led.deaf.count c == 0 then .close c else .cont)
     | none => (b, t.c, .cont)
   | .closeIfIdle =>
     match t.c with
-    | some c => (b, t.c, if led.streams.count c == 0 then .close c else .cont)
+    | some c => (b, t.c, if led.streams.count c + led.deaf.count c == 0 then .close c else .cont)
     | none => (b, t.c, .cont)
   | .closeConn => match t.c with | some c => (b, t.c, .close c) | none => (b, t.c, .cont)
   | .loadSlot => (b, b.slots (slotOf b t.slot), .cont)
@@ -183,6 +198,10 @@ def bookStmt (pg : Progs) (led : Led) (b : Books) (t : Task) : Stmt → Books ×
     | none => ({ b with lastRes := .connFail }, t.c, .refuse)
   | .chkBreaker => if canCreate led.maxReq led.reqCur then (b, t.c, .pass) else ({ b with lastRes := .overflow }, t.c, .refuse)
   | .place => ({ b with lastRes := .ok (t.c.getD 0) }, t.c, .cont)
+  | .listen => (b, t.c, if pg.placeVisible && !(led.deaf.contains (t.c.getD 0)) then .lost else .cont)
+  | .undoChk => match t.c with
+    | some c => if (b.client c).netOpen then (b, t.c, .cont) else ({ b with lastRes := .connFail }, t.c, .undo c)
+    | none => (b, t.c, .cont)
   | .delIfGoAway =>
     match b.slots 0 with
     | some a => (if (b.client a).goaway then b.moves pg.delMoves else b, t.c, .cont)
@@ -209,14 +228,15 @@ def bookStmt (pg : Progs) (led : Led) (b : Books) (t : Task) : Stmt → Books ×
   | _ => (b, t.c, .cont)
 
 /-- the LEDGER part of one statement -/
-def ledStmt (l : Led) (c : Option Nat) : Stmt → Led
+def ledStmt (vis : Bool) (l : Led) (c : Option Nat) : Stmt → Led
   | .decHost => { l with rqHost := l.rqHost - 1 }
   | .incHost => { l with rqHost := l.rqHost + 1 }
   | .decCluster => { l with rqCluster := l.rqCluster - 1 }
   | .incCluster => { l with rqCluster := l.rqCluster + 1 }
   | .decRes => { l with reqCur := resDecrease l.maxReq l.reqCur }
   | .incRes => { l with reqCur := resIncrease l.maxReq l.reqCur }
-  | .place => { l with streams := l.streams ++ [c.getD 0] }
+  | .place => if vis then { l with deaf := l.deaf ++ [c.getD 0] } else l
+  | .listen => { l with streams := l.streams ++ [c.getD 0], deaf := l.deaf.erase (c.getD 0) }
   | _ => l
 
 /-- what the closing goroutine runs when a connection with `n` requests in flight closes -/
@@ -224,7 +244,11 @@ def lostProg (pg : Progs) (n : Nat) : List Stmt :=
   let each := (List.replicate n (pg.reset ++ pg.destroy)).flatten
   if pg.hearsFirst then pg.close ++ each else each ++ pg.close
 
-def Led.drop (l : Led) (c : Nat) : Led := { l with streams := l.streams.filter (· != c) }
+def Led.drop (l : Led) (c : Nat) : Led := { l with streams := l.streams.filter (· != c), deaf := l.deaf.filter (· != c) }
+
+/-- the closed-connection test replaced by what it will do for a stream that was reset unheard: the give-back, once -/
+def expandUndo (pg : Progs) (rest : List Stmt) : List Stmt :=
+  rest.flatMap (fun st => if st = .undoChk then pg.destroy else [st])
 
 def newTask (s : State) (t : Task) : State :=
   { s with tasks := s.tasks ++ [{ t with id := s.bk.nextId }], bk := { s.bk with nextId := s.bk.nextId + 1 } }
@@ -242,11 +266,20 @@ def stepTask (s : State) (k : Nat) : State :=
       | (b, c', .pass), true => { s with bk := b, tasks := s.tasks.set k { t with c := c', rest := s.pg.nsPost, pre := false } }
       | (b, c', .close c), false =>
         if (b.client c).netOpen then
-          { s with bk := b.updC c (fun cl => { cl with netOpen := false }), led := (ledStmt s.led c' st).drop c,
-                   tasks := s.tasks.set k { t with c := c', rest := lostProg s.pg ((ledStmt s.led c' st).streams.count c) ++ rest } }
-        else { s with bk := b, led := ledStmt s.led c' st, tasks := s.tasks.set k { t with c := c', rest := rest } }
-      | (b, c', _), true => { s with bk := b, tasks := s.tasks.set k { t with c := c', rest := rest } }
-      | (b, c', _), false => { s with bk := b, led := ledStmt s.led c' st, tasks := s.tasks.set k { t with c := c', rest := rest } }
+          { s with bk := b.updC c (fun cl => { cl with netOpen := false }), led := (ledStmt s.pg.placeVisible s.led c' st).drop c,
+                   tasks := s.tasks.set k { t with c := c', rest := lostProg s.pg ((ledStmt s.pg.placeVisible s.led c' st).streams.count c) ++ rest } }
+        else { s with bk := b, led := ledStmt s.pg.placeVisible s.led c' st, tasks := s.tasks.set k { t with c := c', rest := rest } }
+      | (b, c', .lost), false =>
+        { s with bk := { b with lastRes := .connFail }, tasks := s.tasks.set k { t with c := c', openAtEnd := false, rest := expandUndo s.pg rest } }
+      | (b, c', .undo c), false =>
+        if c ∈ s.led.streams then
+          { s with bk := b, led := { s.led with streams := s.led.streams.erase c },
+                   tasks := s.tasks.set k { t with c := c', openAtEnd := false, rest := s.pg.reset ++ s.pg.destroy ++ rest } }
+        else { s with bk := b, tasks := s.tasks.set k { t with c := c', openAtEnd := false, rest := rest } }
+      | (b, c', _), true =>
+        let ga := if st = .chkState then (b.client (c'.getD 0)).gaSeen else t.gaAtTest
+        { s with bk := b, tasks := s.tasks.set k { t with c := c', rest := rest, gaAtTest := ga } }
+      | (b, c', _), false => { s with bk := b, led := ledStmt s.pg.placeVisible s.led c' st, tasks := s.tasks.set k { t with c := c', rest := rest } }
 
 inductive Cause | complete | localReset | remoteReset
   deriving DecidableEq, Repr
